@@ -51,7 +51,8 @@ type QVar struct {
 
 // TypeExpr is a tiny type syntax: ident | pkg.ident | *T | []T
 type TypeExpr struct {
-	Kind string // "name", "ptr", "slice"
+	Params []*TypeExpr // func parameter types
+	Kind string // "name", "ptr", "slice", "func"
 	Pkg  string
 	Name string
 	Elem *TypeExpr
@@ -63,6 +64,12 @@ func (t *TypeExpr) String() string {
 		return "*" + t.Elem.String()
 	case "slice":
 		return "[]" + t.Elem.String()
+	case "func":
+		var ps []string
+		for _, p := range t.Params {
+			ps = append(ps, p.String())
+		}
+		return "func(" + strings.Join(ps, ", ") + ") " + t.Elem.String()
 	}
 	if t.Pkg != "" {
 		return t.Pkg + "." + t.Name
@@ -385,6 +392,19 @@ func (p *parser) typeExpr() *TypeExpr {
 	n := p.next()
 	if n.kind != "ident" {
 		p.fail("expected type, got %q", n.text)
+	}
+	if n.text == "func" && p.isOp("(") {
+		p.next()
+		ft := &TypeExpr{Kind: "func"}
+		for !p.isOp(")") {
+			ft.Params = append(ft.Params, p.typeExpr())
+			if p.isOp(",") {
+				p.next()
+			}
+		}
+		p.expect(")")
+		ft.Elem = p.typeExpr()
+		return ft
 	}
 	if p.isOp(".") {
 		p.next()
